@@ -83,9 +83,17 @@ def states(rng, n, quick):
     # boundaries: a near-certain outcome (probability 1 - delta^2, delta^2 from 1e-5 down to 1e-12) next to exact zeros
     if N >= 2:
         a, b = (int(x) for x in rng.permutation(N)[:2])
-        for delta in ((3e-3, 1e-4, 1e-6) if not quick else (3e-3, 1e-6)):
+        # p = 1 - delta^2 with delta^2 = 1e-3 … 1e-12
+        for delta in ((3e-2, 1e-2, 3e-3, 1e-3, 1e-4, 1e-5, 1e-6) if not quick else (3e-2, 3e-3, 1e-4, 1e-6)):
             v = np.zeros(N, dtype=np.complex128); v[a] = 1; v[b] = delta * np.exp(1j * rng.uniform(0, 6))
             out.append(('near-certain', v / np.linalg.norm(v)))
+        if n >= 2:
+            # (cos t|0> + sin t|1>) (x) |+> (x) |0…0>, t = 2e-3: qubit 0 is almost certainly 0 while qubit 1 is undecided
+            t = 2e-3
+            v = np.kron(np.array([math.cos(t), math.sin(t)]), np.array([1, 1]) / np.sqrt(2))
+            for _ in range(n - 2):
+                v = np.kron(v, np.array([1.0, 0.0]))
+            out.append(('near-certain', v.astype(np.complex128)))
     # dtypes / layouts the clean tree accepts: real float64, integer basis state, single precision, non-contiguous view
     r = rng.normal(size=N)
     out.append(('real-float64', r / np.linalg.norm(r)))
@@ -339,6 +347,10 @@ def circuit_cases(ctx, rng):
         if np.linalg.norm(g) == 0:
             g[0] = 1
         psi = g / np.linalg.norm(g) if rng.integers(0, 2) else (lambda r: r / np.linalg.norm(r))(rng.normal(size=2 ** n) + 1j * rng.normal(size=2 ** n))
+        if it % 3 == 2:
+            # real-dtype state through complex (controlled) gates: the simulator must upcast
+            r = rng.normal(size=2 ** n)
+            psi = r / np.linalg.norm(r)
         c = CCase()
         c.n, c.steps, c.psi, c.key, c.err = n, steps, psi, 'MeasureGate-in-circuit', None
         try:
